@@ -290,7 +290,7 @@ pub fn generate(seed: u64, w: &World, with_big: bool, with_stalls: bool) -> Valu
         // relative through a sub-directory; and the environment the tool starts in
         "output_form": *rng.pick(&["abs", "abs", "rel", "rel-sub"]),
         // the file name itself: with, without and with an unusual extension, hidden
-        "output_name": *rng.pick(&["out.json", "out.json", "schema", "schema.v2.txt", ".schema", "introspection.JSON"]),
+        "output_name": *rng.pick(&["out.json", "out.json", "schema", "schema.v2.txt", ".schema", "introspection.JSON", "sch@E9@ma.json"]),
         // order of the options on the command line and `--opt value` vs `--opt=value`
         "arg_order": if rng.chance(1, 2) { rng.next_u64() >> 12 } else { 0 },
         "arg_forms": rng.next_u64() & 0x7ff,
